@@ -705,7 +705,65 @@ func c08EncodingTable(c *Ctx) {
 			}
 		})
 	}
+	// table form: `ctor, ok := encoders[to]; if !ok { return error }; enc := ctor(out)` with a
+	// package-level map literal from encoding name to constructor
+	tableForm := false
+	if len(got) == 0 {
+		eachInstr(fn, func(i ssa.Instruction) {
+			lk, ok := i.(*ssa.Lookup)
+			if !ok || !lk.CommaOk || !paramReaches(c, lk.Index, toParam) {
+				return
+			}
+			lit := globalLiteral(c, loadedGlobal(lk.X))
+			if lit == nil {
+				return
+			}
+			for k, f := range lit.Funcs {
+				if f.Pkg() != nil {
+					got[k] = "lib." + f.Name()
+					if f.Pkg().Path() != pkgPath("lib") {
+						got[k] = f.Pkg().Path() + "." + f.Name()
+					}
+				}
+			}
+			// the miss is rejected, and the constructor found is the one called on the output
+			var okEx, ctorEx ssa.Value
+			for _, r := range refs(lk) {
+				if ex, isEx := r.(*ssa.Extract); isEx {
+					if ex.Index == 1 {
+						okEx = ex
+					} else {
+						ctorEx = ex
+					}
+				}
+			}
+			if okEx == nil || ctorEx == nil {
+				return
+			}
+			ifi := trueImpliesIf(okEx)
+			if ifi == nil {
+				return
+			}
+			miss := exploreBlock(ifi.Block().Succs[1], nil)
+			rejected := len(returnsIn(miss)) > 0 && len(callsInSet(miss, "fmt.Errorf")) > 0
+			called := false
+			for _, r := range refs(ctorEx) {
+				if call, isCall := r.(*ssa.Call); isCall && call.Call.Value == ctorEx {
+					called = true
+					if miss[ssa.Instruction(call)] {
+						rejected = false
+					}
+				}
+			}
+			if rejected && called {
+				tableForm = true
+			}
+		})
+	}
 	var diffs []string
+	if len(got) > 0 && lastIf == nil && !tableForm {
+		diffs = append(diffs, "an unknown encoding is not rejected (or the constructor looked up is not the one used)")
+	}
 	for k, w := range want {
 		if got[k] != w {
 			diffs = append(diffs, fmt.Sprintf("%q → %s (want %s)", k, got[k], w))
